@@ -16,13 +16,13 @@ from .grading_judge import _apply, _rand_frame
 
 CLAUSE_PROP = {
     "IndicesOK": "C06", "C05_positions": "C05", "C05_shared": "C05", "C05_masterslave": "C05", "C05_dense": "C05",
-    "C06_blocks": "C06", "C06_vertexproj": "C06", "C06_patchnames": "C06", "C06_patchnames_unique": "C06",
+    "C06_blocks": "C06", "C06_vertexproj": "C06", "C06_vertexproj_exact": "C06", "C06_patchnames": "C06", "C06_patchnames_unique": "C06",
     "C06_patchquads": "C06", "C06_patchtypes": "C06", "C06_faces": "C06", "C06_mesh_level": "C06",
     "C06_geometry_defined": "C06", "C06_vtk": "C06",
     "C07_on_block_edges": "C07", "C07_unique": "C07", "C07_present": "C07", "C07_no_extra": "C07",
 }
 # clauses that also decide C10's addressing statement (side / edge / corner addressing shows in these)
-C10_CLAUSES = {"C06_patchquads", "C06_faces", "C06_vertexproj", "C07_present", "C07_no_extra", "C07_on_block_edges",
+C10_CLAUSES = {"C06_patchquads", "C06_faces", "C06_vertexproj", "C06_vertexproj_exact", "C07_present", "C07_no_extra", "C07_on_block_edges",
                "C10_face_steps", "C10_face_edges", "C10_get_face", "C06_ops_as_given"}
 CLAUSE_PROP.update({"C10_face_steps": "C10", "C10_face_edges": "C10", "C10_get_face": "C10", "C06_ops_as_given": "C06"})
 
@@ -76,6 +76,7 @@ def gen_program(rng: random.Random, focus: str, pid: int) -> dict:
                 for _ in range(rng.choice([0, 1, 1, 2])):
                     op["fops"][fname].append(rng.choice([["invert"], ["shift", rng.choice([1, 2, 3, -1, 5])],
                                                           ["reorient", rng.randrange(4)]]))
+        op["share_project"] = rng.random() < 0.4
         ops.append(op)
     plain = lambda op: not op["fops"]["bottom"] and not op["fops"]["top"]   # noqa: E731
     if focus == "vertices":
@@ -217,39 +218,66 @@ def gen_program(rng: random.Random, focus: str, pid: int) -> dict:
                     unique = False
                 seen.setdefault(key, op["sproj"][s])
     return {"id": pid, "focus": focus, "ops": ops, "merged": merged, "dflt": dflt, "mods": mods,
+            "reassemble": rng.random() < 0.3, "reuse": rng.random() < 0.35,
             "pkind": [[k, v] for k, v in pkind.items()], "psettings": [[k, v] for k, v in pset.items()],
             "geom": geom, "settings": prog_settings, "exp_settings": settings, "unique_face_labels": unique,
             "builtin": False, "count": 2}
 
 
-def execute(prog: dict, geo: Geometry, ctx: Ctx, with_vtk: bool = True) -> dict:
-    """run the program through the real API; returns the record for TLC or {'error': ...}"""
+def reuse_in_second_mesh(prog: dict, lofts: list, geo: Geometry, ctx: Ctx, rng: random.Random) -> Optional[dict]:
+    """The user's operations are the user's: after a mesh made of them has been assembled and written, a second Mesh built from
+    some of the same objects must be written as if they were new (nothing an assembly computed may have leaked into them).
+    Returns the record of the second mesh for TLC, {'error': ...}, or None when there is nothing to reuse."""
+    import copy
+
+    import classy_blocks as cb
+
+    live = [i for i, o in enumerate(prog["ops"]) if not o["deleted"]]
+    if not live:
+        return None
+    keep = sorted(rng.sample(live, rng.randint(1, len(live))))
+    sub = copy.deepcopy({k: v for k, v in prog.items()})
+    sub["ops"] = [copy.deepcopy(prog["ops"][i]) for i in keep]
+    sub["id"] = prog["id"] + 100000
+    used = {n for o in sub["ops"] for n in o["patch"] if n}
+    sub["merged"] = [pair for pair in prog["merged"] if pair[0] in used and pair[1] in used]
+    sub["pkind"] = [x for x in prog["pkind"] if x[0] in used]
+    sub["psettings"] = [x for x in prog["psettings"] if x[0] in used]
     try:
-        mesh, _ = build_mesh(prog, geo)
+        mesh = cb.Mesh()
+        for i in keep:
+            mesh.add(lofts[i])
+        for pair in sub["merged"]:
+            mesh.merge_patches(pair[0], pair[1])
+        if prog["dflt"]:
+            mesh.set_default_patch(prog["dflt"][0], prog["dflt"][1])
+        mods = {}
+        for name, kind, settings in prog["mods"]:
+            if name in used:
+                mesh.modify_patch(name, kind, settings)
+        for label, props in prog["geom"]:
+            mesh.add_geometry({label: props})
+        for key, val in prog["settings"]:
+            mesh.settings[key] = val
+        path = os.path.join(ctx.tmp, "prog2.bmd")
+        if os.path.exists(path):
+            os.remove(path)
+        mesh.write(path)
+        with open(path, encoding="utf-8") as f:
+            parsed = bmd.parse_blockmeshdict(f.read())
     except Exception as err:  # pylint: disable=broad-except
-        return {"error": f"build:{type(err).__name__}", "msg": str(err)[:300]}
-    path = os.path.join(ctx.tmp, "prog.bmd")
-    vtk = os.path.join(ctx.tmp, "prog.vtk")
-    for p in (path, vtk):
-        if os.path.exists(p):
-            os.remove(p)
-    try:
-        mesh.write(path, vtk if with_vtk else None)
-    except Exception as err:  # pylint: disable=broad-except
-        return {"error": f"write:{type(err).__name__}", "msg": str(err)[:300]}
-    with open(path, encoding="utf-8") as f:
-        text = f.read()
-    try:
-        parsed = bmd.parse_blockmeshdict(text)
-    except Exception as err:  # pylint: disable=broad-except
-        return {"error": f"parse:{type(err).__name__}", "msg": str(err)[:300]}
+        return {"error": f"reuse:{type(err).__name__}", "msg": str(err)[:300]}
+    return make_record(sub, parsed, geo, None)
+
+
+def make_record(prog: dict, parsed: dict, geo: Geometry, vtk_path: Optional[str]) -> dict:
     af = abstract_file(parsed, prog, geo)
     af["vtk_checked"] = False
     af["vtk_points_match"] = True
     af["vtk_cells"] = []
-    if with_vtk:
+    if vtk_path:
         try:
-            with open(vtk, encoding="utf-8") as f:
+            with open(vtk_path, encoding="utf-8") as f:
                 v = bmd.parse_vtk(f.read())
             af["vtk_checked"] = True
             pts = v["points"]
@@ -272,6 +300,32 @@ def execute(prog: dict, geo: Geometry, ctx: Ctx, with_vtk: bool = True) -> dict:
     rec["settings"] = prog["exp_settings"]
     rec["file"] = af
     return rec
+
+
+def execute(prog: dict, geo: Geometry, ctx: Ctx, with_vtk: bool = True, keep: Optional[dict] = None) -> dict:
+    """run the program through the real API; returns the record for TLC or {'error': ...}"""
+    try:
+        mesh, lofts = build_mesh(prog, geo)
+        if keep is not None:
+            keep["lofts"] = lofts
+    except Exception as err:  # pylint: disable=broad-except
+        return {"error": f"build:{type(err).__name__}", "msg": str(err)[:300]}
+    path = os.path.join(ctx.tmp, "prog.bmd")
+    vtk = os.path.join(ctx.tmp, "prog.vtk")
+    for p in (path, vtk):
+        if os.path.exists(p):
+            os.remove(p)
+    try:
+        mesh.write(path, vtk if with_vtk else None)
+    except Exception as err:  # pylint: disable=broad-except
+        return {"error": f"write:{type(err).__name__}", "msg": str(err)[:300]}
+    with open(path, encoding="utf-8") as f:
+        text = f.read()
+    try:
+        parsed = bmd.parse_blockmeshdict(text)
+    except Exception as err:  # pylint: disable=broad-except
+        return {"error": f"parse:{type(err).__name__}", "msg": str(err)[:300]}
+    return make_record(prog, parsed, geo, vtk if with_vtk else None)
 
 
 def judge(ctx: Ctx, recs: List[dict], timeout: int = 900) -> Dict[int, List[str]]:
@@ -303,7 +357,8 @@ def run_focus(ctx: Ctx, prop: str, focus: str, n: int, clauses_of_interest=None)
     for i in range(n):
         prog = gen_program(rng, focus, i + 1)
         geo = lattice_geometry(rng, general=rng.random() < 0.8)
-        rec = execute(prog, geo, ctx)
+        kept: dict = {}
+        rec = execute(prog, geo, ctx, keep=kept)
         ctx.evaluated(json.dumps(describe(prog), sort_keys=True) if len(prog["ops"]) > 1 or focus != "vertices" else None)
         if "error" in rec:
             ctx.violation(f"program-fails:{rec['error']}", f"{focus} program could not be written: {rec['error']}: {rec['msg']}",
@@ -312,6 +367,16 @@ def run_focus(ctx: Ctx, prop: str, focus: str, n: int, clauses_of_interest=None)
         progs.append(prog)
         recs.append(rec)
         geos[prog["id"]] = geo
+        if prog.get("reuse") and "lofts" in kept:
+            rec2 = reuse_in_second_mesh(prog, kept["lofts"], geo, ctx, rng)
+            if rec2 is not None and "error" in rec2:
+                ctx.violation(f"program-fails:{rec2['error']}", f"{focus} program: a second mesh made of the same operations could not be "
+                              f"written: {rec2['error']}: {rec2['msg']}", {"prog": prog, "coords": geo.coords})
+            elif rec2 is not None:
+                sub = dict(prog, id=rec2["id"], second=True)
+                progs.append(sub)
+                recs.append(rec2)
+                geos[rec2["id"]] = geo
     if not recs:
         return
     verdicts = judge(ctx, recs)
@@ -327,6 +392,8 @@ def run_focus(ctx: Ctx, prop: str, focus: str, n: int, clauses_of_interest=None)
             for sig in violation_signatures(c, prog, rec):
                 if prop == "C10" and ":reversed:" in sig:
                     continue   # the edge still joins its two points (C10); the direction of its data is C07's subject
+                if prog.get("second"):
+                    sig += ":second-mesh"
                 ctx.violation(sig, f"{focus} program {prog['id']}: Render.tla clause {c} rejected the written file",
                               {"prog": prog, "coords": {str(k): v for k, v in geos[prog['id']].coords.items()}, "file": rec["file"]})
     ctx.sample(describe(progs[0]))
